@@ -169,7 +169,7 @@ class SplitOperator(LinearOperator):
                     start = slc[i].start if slc[i].start is not None else 0
                     stop = slc[i].stop if slc[i].stop is not None else d.size
                     step = slc[i].step if slc[i].step is not None else 1
-                    frac = np.floor((stop - start) / np.abs(step))
+                    frac = np.ceil((stop - start) / np.abs(step))
                     k_tgt += [UnstructuredDomain(frac.astype(int))]
                     k_slc_by_ax += [slc[i]]
                 elif isinstance(slc[i],
